@@ -97,6 +97,8 @@ def strip_raw(name):
 
 
 def attr_text(f):
+    if f.get("attr_raw"):
+        return "#[%s]" % f["attr_raw"]
     rs = f["ranges"]
     parts = []
     form = f.get("attr", "")
